@@ -29,6 +29,8 @@ UNIT_MAP = {
     'modules': ['name_resolution'],
     'resolve': ['name_resolution'],
 }
+# (driver cyclic_table is deliberately absent: it replays the open C04 findings only -- on the pinned tree it always fails,
+# so a search with it would attach the known input to an unrelated violation)
 # drivers whose target may crash the process: the search leaves the current input in a file
 CRASH_PRONE = {'decode_walk', 'gc_roots'}
 _built = {}
